@@ -971,6 +971,9 @@ class WorldRun:
                 L += E.bd(dt[1], v[2], f"(*{outs[0][2]})", side)
                 L.append("return 1;")
             else:
+                # `none`: the payload is indeterminate — poison it so that bindings which copy it anyway are
+                # caught by UBSan when it is a bool (0x64 is not a valid _Bool)
+                L.append(f"memset({outs[0][2]}, 0x64, sizeof *{outs[0][2]});")
                 L.append("return 0;")
         elif mc["ret"] == "bool-result":
             j = int(v[1])
